@@ -292,6 +292,16 @@ def run(c, chk):
     from . import c01
     c01.element_counter(c, chk, pm.ParserModel(c), None, 'R5.5')
 
+    # ---- R5.13 / R5.14: what is printed is what a fresh parse of the print gives back only if the tree holds what its text said:
+    # a section stored again gets its defaults like the first one; a refused setter call does not unset a scalar (an unset scalar is
+    # printed as a comment line and reads back as the default)
+    if not isinstance(chk, report.SubCheck):
+        from . import c01 as _c01s, c08 as _c08s, c10 as _c10s
+        _c01s.section_store(c, _c08s.chk_proxy(chk, {'R1.11': 'R5.13'}), sym.Explorer(c.modules, max_visits=2, mod_sets=c.mod_sets, max_paths=60000))
+        chk.rule('R5.14', 'the slot accessor and the indexed setters refuse before they touch the option (rule R10.1 of C10): a refused call does not leave a scalar without its value')
+        _c10s.analyse(c, _c08s.chk_proxy(chk, {'R10.1': 'R5.14', 'R10.2': 'R5.14'}), 'R10.1', 'R10.2',
+                      funcs=('cfg_opt_getval', 'cfg_opt_setnint', 'cfg_opt_setnfloat', 'cfg_opt_setnbool', 'cfg_opt_setnstr'))
+
     # ---- R5.6: an annotation reaches a fixed point: it is printed as "/* text */" and read back trimmed ----
     from . import c15
     c15.trailing_trim(c, chk, 'R5.6')
